@@ -38,6 +38,8 @@ type printer struct {
 	buf         strings.Builder
 	comments    map[string][]*commentBlock
 	lastComment SourceLoc
+	// True if lastComment is the location of a comment, rather than of a node.
+	lastWasComment bool
 }
 
 func (self *printer) printComments(node *AstNode, prefix string) {
@@ -53,14 +55,15 @@ func (self *printer) printComments(node *AstNode, prefix string) {
 		self.buf.WriteString("\"\n#\n\n")
 	}
 	for _, c := range node.scopeComments {
-		if self.lastComment.Line != 0 && self.lastComment.Line == c.Loc.Line-2 &&
-			!strings.HasSuffix(self.buf.String(), NEWLINE+NEWLINE) {
-			// Keep the blank line, unless the enclosing construct has
-			// already separated its elements with one.
+		if self.lastWasComment && self.lastComment.Line == c.Loc.Line-2 {
+			// Keep a blank line between two blocks of comments.  The line
+			// of the previous node says nothing about blank lines, since
+			// the node may span several lines.
 			self.buf.WriteString(NEWLINE)
 		}
 
 		self.lastComment = c.Loc
+		self.lastWasComment = true
 		self.buf.WriteString(prefix)
 		self.buf.WriteString(c.Value)
 		self.buf.WriteString(NEWLINE)
@@ -74,6 +77,7 @@ func (self *printer) printComments(node *AstNode, prefix string) {
 		self.buf.WriteString(NEWLINE)
 	}
 	self.lastComment = node.Loc
+	self.lastWasComment = false
 }
 
 func (self *printer) WriteString(s string) (int, error) {
